@@ -41,7 +41,7 @@ TrReset == /\ Ev.e = "Reset" /\ l' = l + 1 /\ vals' = <<>> /\ UNCHANGED byVal /\
 
 ValueChecks(v) ==
   LET key == <<v.n, v.d>> IN
-  If(~WellFormed(B(v.n)) \/ ~WellFormed(B(v.d)), V("C15", "printed value is not a numeral")) \cup
+  If(~WellFormed(B(v.n)) \/ ~WellFormed(B(v.d)), V("C15", [m |-> "printed value is not a numeral"])) \cup
   If(BSign(B(v.d)) <= 0, V("C15", [denominatorNotPositive |-> Ev.i])) \cup
   If(~Coprime(R(v), B(Ev.cert.s), B(Ev.cert.t)), V("C15", [notInLowestTerms |-> Ev.i])) \cup
   If(FitsWord(v) /\ ~v.w, V("C15", [fitsWordButWordPartInvalid |-> Ev.i])) \cup
